@@ -60,6 +60,24 @@ def anchor_positions(path, n):
         i = d.find(sig)
         while i >= 0 and len(out) < 4000:
             span(i, 64); i = d.find(sig, i + 1)
+    i = d.find(b"BSJB")
+    if i >= 0 and i + 20 <= n:
+        # .NET metadata root: follow the stream headers into the streams (#~ rows, #Blob signatures, #Strings, #US): positions spread
+        # over each stream's content (deterministic: every k-th byte, k from the stream size)
+        try:
+            vlen = struct.unpack_from("<I", d, i + 12)[0]
+            p = i + 16 + vlen + 2
+            ns = struct.unpack_from("<H", d, p)[0]; p += 2
+            for _ in range(min(ns, 8)):
+                so, ss = struct.unpack_from("<II", d, p); p += 8
+                e = d.index(b"\0", p); name = d[p:e]; p = (e + 4) & ~3
+                base = i + so
+                if 0 <= base < n and ss > 0:
+                    span(base, 32)
+                    step = max(1, min(ss, n - base) // (260 if name in (b"#~", b"#-", b"#Blob") else 60))
+                    out.update(range(base, min(n, base + ss), step))
+        except (struct.error, ValueError):
+            pass
     if d[:3] == b"dex" and n >= 112:
         for off in range(0x34, 0x70, 4):                      # map_off and the (size, off) pairs of the id tables / class_defs / data
             v = struct.unpack_from("<I", d, off)[0]
